@@ -62,6 +62,10 @@ CLAIMED = {
         text="Lean theorems: for every well-nested trace of contexts (any depth and length, exits by exception included) the hook registries and the mode stack are restored to their previous content (induction on the trace with a freshness invariant on handle ids), nested exits keep the outer context installed, the event machine used by the harness equals the structural definition; "
              "write-set tables of the inference/quantization entry points are regenerated from the source text each run and checked empty by decide. Correspondence: torch's real global registries and mode stack after every enter/exit of random traces; bit-level snapshots of state_dict, qtypes and float sources around forwards, quantize, freeze and library calls; repeated evaluation bit-identical.",
         design="6/C13", technique="Lean 4 proof by induction on well-nested traces + regenerated write-set tables + state-snapshot differential checks"),
+    "C08": dict(
+        text="Lean theorems by structural induction over module trees: quantize() replaces exactly the selected eligible leaves (Linear, Conv2d, LayerNorm only with activations) by twins carrying the same identity and leaves everything else untouched, for every tree, filter and qtype; the branch trace of QModuleMixin.forward for the four input/activation cases. "
+             "Correspondence on random trees (classes, names, filters) and on forward branch traces; float parameters, hyper-parameters, dtype and names compared bit for bit; each quantized module's output compared with the float module on the dequantized weight and (de)quantized input — bit-exact for Conv2d/LayerNorm (fallback ops), inside the accumulation envelope / one output step for Linear (torch is its own reference).",
+        design="6/C08", technique="Lean 4 structural induction on module trees + differential correspondence; torch-vs-torch bit equality for numerics"),
 }
 
 NOT_YET = "check not yet built in this round (build in progress; see DESIGN.md build order)"
